@@ -97,11 +97,18 @@ class PythonModelGenerator(IndentPrintMixin):
             if name in rule_specs
         }
 
+        rules_of_model: dict[str, list[g.Rule]] = {}
+        for name, rule in rule_index.items():
+            if name in rule_specs:
+                rules_of_model.setdefault(rule_specs[name][0].class_name, []).append(rule)
+
         for model_name in model_names:
             if model_name in vars(builtins):
                 continue
             if rule := model_to_rule.get(model_name):
-                self._gen_rule_class(rule, rule_specs[rule.name])
+                self._gen_rule_class(
+                    rule, rule_specs[rule.name], rules_of_model[model_name]
+                )
             else:
                 self._gen_base_class(model_name, specs_by_name.get(model_name))
 
@@ -125,12 +132,21 @@ class PythonModelGenerator(IndentPrintMixin):
         with self.indent():
             self.print('pass')
 
-    def _gen_rule_class(self, rule: g.Rule, specs: list[BaseClassSpec]):
+    def _gen_rule_class(
+        self,
+        rule: g.Rule,
+        specs: list[BaseClassSpec],
+        rules: list[g.Rule] | None = None,
+    ):
         if not specs:
             return
         spec = specs[0]
         arguments = sorted(
-            {safe_name(d) for d in rule.defines_single + rule.defines_list}
+            {
+                safe_name(d)
+                for r in rules or [rule]
+                for d in r.defines_single + r.defines_list
+            }
         )
 
         self.print()
